@@ -167,6 +167,21 @@ KNOWN_PROBES = [
 ]
 
 
+NAME_COLON = ("program p\nouter &\n  : do i = 1, 2\nx = 1\nend do outer\nend program p\n",
+              "program p\nouter: do i = 1, 2\nx = 1\nend do outer\nend program p\n")
+
+
+def name_colon_probe(_):
+    """recorded finding, kept apart: a continuation between a construct name and its colon"""
+    import fp
+    o = fp.parse(NAME_COLON[0], std="f2003", ignore_comments=True)
+    ref = fp.parse(NAME_COLON[1], std="f2003", ignore_comments=True)
+    if ref.kind == "tree" and (o.kind != "tree" or fp.canon_repr(o.tree) != fp.canon_repr(ref.tree)):
+        return [("construct_name_cut_from_its_colon", "'outer &' / ': do ...' gives %s, not the tree of 'outer: do ...'" % o.kind,
+                 dict(std="f2003", source=NAME_COLON[0], canonical=NAME_COLON[1], catalogue_layout="name_colon"))]
+    return []
+
+
 def run(ctx):
     proof = common.leg_p(ctx, TARGETS)
     import reader_corr
@@ -207,6 +222,8 @@ def run(ctx):
         else:
             ncat += r[0]
             failures += r[1]
+    for st, r in pool.pmap(name_colon_probe, [0], chunksize=1):
+        failures += r if st == "ok" else [("harness_error", r[:300], {})]
     ncomp = 0
     for name, (st, r) in zip(sorted(COMPOUND), pool.pmap(compound_probe, sorted(COMPOUND), chunksize=4)):
         ncomp += 3
